@@ -411,7 +411,7 @@ class TaggedUnionConverter(UnionConverter):
                 raise ParseInterrupt()
         try:
             i = self.tag_map[tag]
-        except KeyError:
+        except (KeyError, TypeError):  # TypeError: unhashable tag
             raise ParseInterrupt()
         return self.converters[i].try_convert(val)
 
@@ -443,7 +443,7 @@ class TaggedUnionConverter(UnionConverter):
                 return WrongTypeError(f"mapping with keys '{t_r}' and '{c_r}'", val)
         try:
             i = self.tag_map[tag]
-        except KeyError:
+        except (KeyError, TypeError):  # TypeError: unhashable tag
             return WrongTypeError(f"tag '{self.tag}' one of {self.tag_expected()}", tag)
         return self.converters[i].collect_errors(val)
 
